@@ -143,6 +143,127 @@ fn spell(
     None
 }
 
+/// Number of graphs over `n` files in which every ordered pair (i, j), self-loops included, carries
+/// no edge or one edge of one of the four load kinds.
+pub const fn exhaustive_count(n: u32) -> u64 {
+    5u64.pow(n * n)
+}
+
+/// Graph number `code` (base-5 digits = the n x n edge matrix, row-major) over a fixed layout:
+/// `w/root.scss`, `w/f1.scss`, `w/d/_f2.scss`; loads in target order, unwrapped; urls canonical or
+/// (every other layout variant) with alias noise.  Together with the counts above this is the
+/// "all directed graphs over up to 3 files" of the property's quantifier, one load per ordered pair.
+pub fn exhaustive_graph(n: usize, code: u64, variant: u64, rng: &mut Rng) -> GraphSpec {
+    let bases = vec!["w".to_string()];
+    let paths: Vec<String> = ["w/root.scss", "w/f1.scss", "w/d/_f2.scss"].iter().take(n).map(|s| (*s).to_string()).collect();
+    let mut fs = SimFs::new();
+    fs.add_dir("w");
+    fs.add_dir("w/d");
+    fs.add_dir("w/x");
+    for p in &paths {
+        fs.add_file(p, "");
+    }
+    let params = GraphParams {
+        nfiles: n,
+        kinds: ALL_KINDS.to_vec(),
+        noise: if variant % 2 == 1 { Noise::Alias } else { Noise::Canonical },
+        cyclic: true,
+        nlp: 0,
+        wrappers: false,
+        density_q: 0,
+        c03: false,
+        subdir_loadpath: false,
+        chain: false,
+    };
+    let mut c = code;
+    let mut files = vec![];
+    for i in 0..n {
+        let mut stmts = vec![];
+        for j in 0..n {
+            let d = c % 5;
+            c /= 5;
+            if d == 0 {
+                continue;
+            }
+            let kind = ALL_KINDS[(d - 1) as usize];
+            // an unambiguous spelling always exists in this layout (every name is unique)
+            let Some(url) = spell(&fs, &bases, &paths[i], &paths[j], kind, &params, rng) else { continue };
+            stmts.push(Stmt::Load { kind, url, target: j, wrap: Wrap::None, ns: format!("n{j}"), with_cfg: false, filter: 0 });
+        }
+        // the marker before or after the loads
+        let pos = if (variant / 2) % 2 == 0 { stmts.len() } else { 0 };
+        stmts.insert(pos, Stmt::Marker);
+        files.push(FileSpec { path: paths[i].clone(), stmts });
+    }
+    GraphSpec { files, extra_dirs: vec!["w/x".into()], bases, fmt: Fmt::draw(rng), merge_imports: false }
+}
+
+/// C03's exhaustive section: every acyclic use/forward graph over `n` <= 3 files (files ordered, edges
+/// i -> j only for i < j) in which a pair carries nothing, one `@use`, one `@forward`, two `@use`s under
+/// two spellings, or a `@use` and a `@forward`: 5^(n(n-1)/2) graphs.
+pub const fn exhaustive_c03_count(n: u32) -> u64 {
+    5u64.pow(n * (n - 1) / 2)
+}
+
+pub fn exhaustive_c03_graph(n: usize, code: u64, variant: u64, rng: &mut Rng) -> GraphSpec {
+    let bases = vec!["w".to_string()];
+    let paths: Vec<String> = ["w/root.scss", "w/f1.scss", "w/d/_f2.scss"].iter().take(n).map(|s| (*s).to_string()).collect();
+    let mut fs = SimFs::new();
+    fs.add_dir("w");
+    fs.add_dir("w/d");
+    fs.add_dir("w/x");
+    for p in &paths {
+        fs.add_file(p, "");
+    }
+    let mk = |noise: Noise| GraphParams {
+        nfiles: n,
+        kinds: vec![LoadKind::Use, LoadKind::Forward],
+        noise,
+        cyclic: false,
+        nlp: 0,
+        wrappers: false,
+        density_q: 0,
+        c03: true,
+        subdir_loadpath: false,
+        chain: false,
+    };
+    let first = mk(if variant % 2 == 1 { Noise::Alias } else { Noise::Canonical });
+    let second = mk(Noise::Alias);
+    let mut c = code;
+    let mut files: Vec<FileSpec> = paths.iter().map(|p| FileSpec { path: p.clone(), stmts: vec![] }).collect();
+    for i in 0..n {
+        for j in i + 1..n {
+            let d = c % 5;
+            c /= 5;
+            let kinds: &[LoadKind] = match d {
+                0 => &[],
+                1 => &[LoadKind::Use],
+                2 => &[LoadKind::Forward],
+                3 => &[LoadKind::Use, LoadKind::Use],
+                _ => &[LoadKind::Use, LoadKind::Forward],
+            };
+            for (k, kind) in kinds.iter().enumerate() {
+                let p = if k == 0 { &first } else { &second };
+                if let Some(url) = spell(&fs, &bases, &paths[i], &paths[j], *kind, p, rng) {
+                    files[i].stmts.push(Stmt::Load {
+                        kind: *kind,
+                        url,
+                        target: j,
+                        wrap: Wrap::None,
+                        ns: format!("n{j}{}", if k == 0 { "a" } else { "b" }),
+                        with_cfg: false,
+                        filter: 0,
+                    });
+                }
+            }
+        }
+    }
+    for f in files.iter_mut() {
+        f.stmts.push(Stmt::ModuleVars);
+    }
+    GraphSpec { files, extra_dirs: vec!["w/x".into()], bases, fmt: Fmt::draw(rng), merge_imports: false }
+}
+
 /// A path that differs from `path` only in a way a careless key might ignore.
 fn lookalike(path: &str, how: u64, may_be_css: bool) -> Option<String> {
     let (dir, name) = path.rsplit_once('/')?;
